@@ -216,7 +216,7 @@ func (e *Enc) modAllHeapFor(inRepo bool) func(string) bool {
 		if strings.HasPrefix(c, "$") && c != "$alloc" {
 			return e.w.ambientGhost(c) // other ghost state is only changed by contracts that say so
 		}
-		if (strings.HasPrefix(c, "F:") || (strings.HasPrefix(c, "C:") && inRepo)) && e.w.immutableFieldComp(c) {
+		if (strings.HasPrefix(c, "F:") || ((strings.HasPrefix(c, "C:") || strings.HasPrefix(c, "E:")) && inRepo)) && e.w.immutableFieldComp(c) {
 			e.immut[c] = true
 			return false
 		}
@@ -279,7 +279,68 @@ func (e *Enc) applyContract(fr *Frame, ct *Contract, key string, sig *types.Sign
 	return res, post, rb
 }
 
+// logsOf: ghost logs a contract's ensures talk about (the callee may append to them).
+func (e *Enc) logsOf(ct *Contract) []string {
+	if ct.logs != nil {
+		return ct.logs
+	}
+	set := map[string]bool{}
+	var walk func(x CExpr)
+	walk = func(x CExpr) {
+		switch n := x.(type) {
+		case CSel:
+			if id, ok := n.X.(CIdent); ok && e.w.isLogName(id.Name) {
+				set[id.Name] = true
+			}
+			walk(n.X)
+		case CUnary:
+			walk(n.X)
+		case CBinary:
+			walk(n.L)
+			walk(n.R)
+		case CIndex:
+			walk(n.X)
+			walk(n.I)
+		case CSlice:
+			walk(n.X)
+		case CCall:
+			for _, a := range n.Args {
+				walk(a)
+			}
+		case CQuant:
+			walk(n.Body)
+		}
+	}
+	for _, en := range ct.Ensures {
+		walk(en.Expr)
+	}
+	ct.logs = append([]string{}, sortedKeys(set)...)
+	if ct.logs == nil {
+		ct.logs = []string{}
+	}
+	return ct.logs
+}
+
 func (e *Enc) modFromContract(ct *Contract) func(string) bool {
+	base := e.modFromContract0(ct)
+	logs := e.logsOf(ct)
+	if len(logs) == 0 {
+		return base
+	}
+	return func(c string) bool {
+		if base(c) {
+			return true
+		}
+		for _, l := range logs {
+			if strings.HasPrefix(c, "$"+l+".") {
+				return true
+			}
+		}
+		return false
+	}
+}
+
+func (e *Enc) modFromContract0(ct *Contract) func(string) bool {
 	if !ct.ModSet {
 		// no modifies clause: nothing is known about the frame (frame obligations are only
 		// generated for functions that declare one), so callers havoc everything
@@ -779,6 +840,9 @@ func (e *Enc) addContractMods(ct *Contract, set map[string]bool, all, allRepo *b
 		return
 	}
 	set["$alloc"] = true
+	for _, l := range e.logsOf(ct) {
+		*logs = append(*logs, l)
+	}
 	if ct.Logged != "" {
 		// log components are registered on first use; mark by prefix via closure below
 		for c := range e.comps.sorts {
